@@ -41,6 +41,7 @@ let () =
            (match key_of (z_of_string seed) (bytes_of s) rs (z_of_string d) with
             | Some k -> print_endline (string_of_z k)
             | None -> print_endline "FUEL"))
+      | [ "C" ] -> print_endline (Printf.sprintf "kInfiniteEnd=%s sizeof_unsigned_long=%d" (string_of_z kInfiniteEnd) (if string_of_z ulong_max = "18446744073709551615" then 8 else 4))
       | [ "D" ] ->
         print_endline (Printf.sprintf "dedupe %s %s shard %s %s cache %s %s" (hx dedupe_default_fields) (string_of_z dedupe_default_delim)
                          (hx shard_default_fields) (string_of_z shard_default_delim) (hx cache_default_key) (string_of_z cache_default_separator))
